@@ -810,7 +810,9 @@ def run_web(case):
     what = f"web_tiles({z},{npix})"
 
     def near(a, b):
-        return abs(a - b) <= 1e-9 * (abs(b) + pixel)
+        # R tolerance; the magnitude is that of the coordinates the grid is built from (the map corner
+        # +-pi*R), not of the result, which cancels to ~0 for tiles at the map centre
+        return abs(a - b) <= 1e-9 * (max(abs(b), half) + pixel)
 
     if kind == "tile":
         gb = gs[tx, ty]
@@ -915,6 +917,9 @@ def main(ctx):
         "'native CRS of the grid'); other CRSs are exercised through tiles_from_geopolygon",
         "other-CRS queries: tiles closer to the query boundary than 2x the deviation between the projected edge and its "
         "chord (+1% pixel) are not judged",
+        "R tolerance scale: |value| is the largest coordinate magnitude entering the computation - for a rebuilt grid "
+        "the sample tile's edges as well as the compared tile's, for web tiles the map corner pi*R (tile edges at the map "
+        "centre cancel to ~0 and carry the rounding of the corner they are extrapolated from)",
         "GridSpec equality of the rebuilt grid is not demanded (from_sample_tile always yields +x/-y resolution); only "
         "footprints are compared",
     ]
